@@ -403,7 +403,7 @@ def numDigits (ex : Bool) (ch : Char) (dg : Nat) : Nat :=
 
 /-- `number()` keeps scanning when it peeks this character (the consumed one not being E/D) -/
 def numCont (ex dec : Bool) (pk : Char) : Bool :=
-  isDigit pk || (!ex && !dec && pk = '.') || ((!ex && pk = 'E') || pk = 'e' || pk = 'D' || pk = 'd')
+  isDigit pk || (!ex && !dec && pk = '.') || (!ex && (pk = 'E' || pk = 'e' || pk = 'D' || pk = 'd'))
     || (pk = '!' || pk = '#' || pk = '%')
 
 theorem numberLoop_cons (ch0 : Char) (rest : List Char) (s : Str) (dg : Nat) (dec ex : Bool) :
@@ -426,7 +426,7 @@ theorem numberLoop_cons (ch0 : Char) (rest : List Char) (s : Str) (dg : Nat) (de
             numberLoop rest (s ++ [foldED ch0]) (numDigits ex (foldED ch0) dg) (dec || foldED ch0 = '.') ex
           else if !ex && !(dec || foldED ch0 = '.') && pk = '.' then
             numberLoop rest (s ++ [foldED ch0]) (numDigits ex (foldED ch0) dg) (dec || foldED ch0 = '.') ex
-          else if (!ex && pk = 'E') || pk = 'e' || pk = 'D' || pk = 'd' then
+          else if !ex && (pk = 'E' || pk = 'e' || pk = 'D' || pk = 'd') then
             numberLoop rest (s ++ [foldED ch0]) (numDigits ex (foldED ch0) dg) (dec || foldED ch0 = '.') ex
           else if pk = '!' || pk = '#' || pk = '%' then
             numberLoop rest (s ++ [foldED ch0]) (numDigits ex (foldED ch0) dg) (dec || foldED ch0 = '.') ex
